@@ -388,6 +388,16 @@ def execute(case):
         # (1)+(5) load in another connection (missing module stays missing)
         tm_b = transaction.TransactionManager()
         cb = db1.open(tm_b)
+        if case.get('poison') in (1, 5) or case.get('export', 0) % 4 == 3:
+            # the connection comes back from the pool after every connection cache has been declared stale
+            # (ZODB.Connection.resetCaches(), what a class reload asks for): it starts over with a new cache - one object
+            # per id all the same, however the object is reached
+            import ZODB.Connection
+            cb.root()
+            cb.close()
+            ZODB.Connection.resetCaches()
+            cb = db1.open(tm_b)
+            features.add('connection-caches-reset')
         try:
             seen = {}
 
